@@ -102,6 +102,13 @@ class _D(ast.NodeTransformer):
                 out.extend(r if isinstance(r, list) else [r])
             return out
         v = node.value
+        # return A or B  (A a call)  ->  t = A; if t: return t; return B      (B is evaluated only when A is falsy)
+        if isinstance(v, ast.BoolOp) and isinstance(v.op, ast.Or) and len(v.values) == 2 and isinstance(v.values[0], ast.Call):
+            tmp = "or__%d" % getattr(node, "lineno", 0)
+            a_ = _loc(ast.Assign(targets=[ast.Name(id=tmp, ctx=ast.Store())], value=v.values[0], type_comment=None), node)
+            i_ = _loc(ast.If(test=ast.Name(id=tmp, ctx=ast.Load()), body=[_loc(ast.Return(value=ast.Name(id=tmp, ctx=ast.Load())), node)], orelse=[]), node)
+            r_ = self.visit(_loc(ast.Return(value=v.values[1]), node))
+            return [a_, i_] + (r_ if isinstance(r_, list) else [r_])
         if isinstance(v, ast.Call) and isinstance(v.func, ast.Name) and len(v.args) == 1 and not v.keywords and isinstance(v.args[0], ast.IfExp):
             # W(a if c else b)  ->  W(a) if c else W(b)   (a wrapper named by a plain name: evaluating the name has no effect)
             ie = v.args[0]
